@@ -122,6 +122,7 @@ class OSMRoadNetwork(RoadNetwork):
             raise Exception("Was not able to build link helper")
         else:
             self.min_speed_kmph: Kmph = min(link.speed_kmph for link in link_helper.links.values())
+            self.max_speed_kmph: Kmph = max(link.speed_kmph for link in link_helper.links.values())
             # finish constructing OSMRoadNetwork instance
             self.graph = graph
             self.link_helper = link_helper
@@ -188,7 +189,9 @@ class OSMRoadNetwork(RoadNetwork):
             dist: Kilometers = H3Ops.great_circle_distance(
                 self.graph.nodes[source]["geoid"], self.graph.nodes[dest]["geoid"]
             )
-            time: Hours = dist / self.min_speed_kmph
+            # the estimate must never exceed the true remaining travel time for A* to return
+            # a fastest path, so assume the fastest link speed of the network
+            time: Hours = dist / self.max_speed_kmph
             return time * SECONDS_IN_HOUR
 
         # start path search from the end of the origin link, terminate search at the start of the
